@@ -126,6 +126,10 @@ def random_reject_op(rng, sim):
         {"k": "interpolate_grid", "q": [R(x[0]), R((x[0] + x[-1]) / 2), R(x[-1] + 1)], "method": "linear", "qcontainer": "list"},
         {"k": "interpolate_n", "n": 5, "method": "quadratic"},
         {"k": "interpolate_none", "method": rng.choice(["linear", "cubic"])},
+        # grids whose RANGE agrees but whose first / last element does not (seed C20i: min / max compared instead of the end points)
+        {"k": "interpolate_grid", "q": [R(x[-1]), R((x[0] + x[-1]) / 2), R(x[0])], "method": "linear", "qcontainer": rng.choice(["array", "list"])},
+        {"k": "interpolate_grid", "q": [R((x[0] + x[-1]) / 2), R(x[0]), R(x[-1])], "method": rng.choice(["linear", "constant"])},
+        {"k": "interpolate_grid", "q": [R(x[0]), R(x[-1]), R((x[0] + x[-1]) / 2)], "method": "linear"},
         # an end point that misses by very little, relative to its magnitude (or absolutely when it is 0)
         {"k": "interpolate_grid", "q": [R(x[0]), R((x[0] + x[-1]) / 2), R(x[-1] * (1 + Fraction(1, 2 ** 18)) if x[-1] else Fraction(1, 2 ** 27))], "method": "linear"},
         {"k": "interpolate_grid", "q": [R(x[0] * (1 - Fraction(1, 2 ** 18)) if x[0] > 0 else x[0] - Fraction(1, 2 ** 27)), R((x[0] + x[-1]) / 2), R(x[-1])], "method": "constant", "qcontainer": "list"},
